@@ -30,7 +30,7 @@ REF_ATTRS = ["tie_prev", "tie_next", "slur_stops", "slur_starts", "tuplet_stops"
 SINGLE_ATTRS = (0, 1, 6, 7, 8, 9)   # indices into REF_ATTRS of single-valued references (None when the target is not copied)
 STEPS = ["C", "D", "E", "F", "G", "A", "B"]
 MAXPATH = 60          # paths longer than this are treated as "does not terminate" on both sides
-MAXPATHS = 400        # more complete paths than this: case dropped (counted)
+MAXPATHS = 5000       # more complete paths than this: not compared with the model (counted)
 
 
 # ----------------------------------------------------------------------------
@@ -801,8 +801,10 @@ def gen_spec(rng, kind=None, rich=True):
         spec["clefs"].append([0, 2, "F", 4])
     measures = []
     cur_ts, cur_qd = ts, qd
+    # signature / division changes at block boundaries and at the boundaries of endings
+    cp = set(bb) | {e[0] for e in st.get("endings", [])} | {e[1] for e in st.get("endings", [])}
     for m in range(n):
-        if m in bb and m > 0 and rich:
+        if m in cp and m > 0 and rich:
             x = rng.random()
             if x < 0.12:
                 cur_ts = rng.choice([t for t in TS_CHOICES if t != cur_ts])
@@ -1100,13 +1102,13 @@ def run(ctx):
                    "starting_objects order, canonical dump of unfolded parts) and the Python oracle",
                    "determinism of partitura's unfolding for a given Part"]
     ctx.assumptions = ["segment ids are single characters chr(65+i) (fewer than 60 segments); ending numbers 1..9",
-                       "paths of 60 or more segments / more than 400 paths / get_paths running > 20 s are counted and "
+                       "paths of 60 or more segments / more than 5000 paths / get_paths running > 20 s are counted and "
                        "not compared (model fuel 64)",
                        "Clef copies are not compared with the model (the rule compares a clef with the previous clef "
                        "of any staff; the property does not name clefs)",
                        "original note ids are distinct"]
     ctx.matchers["C09-K1"] = object_crosses_final_end
-    ok, why = ctx.coq_props(expect_min=1)
+    ok, why = ctx.coq_props(expect_min=15)
     rng = ctx.rng
     quick = ctx.tier == "quick"
     n_random = 160 if quick else 2400
